@@ -102,6 +102,9 @@ class MultiMomentGaugeTransformer(abc.ABC):
                     has_target_gates = True
                 elif op not in self.supported_gates:
                     return False
+            else:
+                # Operations without a gate (e.g. `cirq.CircuitOperation`) cannot be gauged.
+                return False
         return has_target_gates
 
     def __call__(
